@@ -746,6 +746,7 @@ def run_execution(case: dict, *, max_invocations: int | None = None, hooks: dict
             interp.sched = sched
             boto = FakeBoto(backend, sched, plan, inv, hooks=_mk_hooks(run, backend, ext, delivered_ext, hooks))
             interp.boto = boto
+            boto.clock = run.clock
             handler = durable_execution(interp.handler, boto3_client=boto)
             lam = LambdaCtx()
             rec = {"inv": inv, "t0": backend.now, "n_hist": len(event["InitialExecutionState"]["Operations"])}
